@@ -67,7 +67,7 @@ def make_defect(kind, r):
     if kind == "bitmap-too-big":
         return [("emoji_u1f601.svg", S(BODY.format(fill="#334455")))], ["cbdt"], ["--bitmap_resolution", "300"], "300 px bitmap in CBDT"
     if kind == "masters-mismatch":
-        return [("emoji_u1f601.svg", S(BODY.format(fill="#334455")))], ["glyf_colr_1"], [], "masters with different source-name sets"
+        return [("emoji_u1f601.svg", S(BODY.format(fill="#334455")))], ["glyf_colr_1", "glyf", "glyf_colr_0", "glyf", "glyf_colr_0"], [], "masters with different source-name sets"
     raise ValueError(kind)
 
 
@@ -116,15 +116,22 @@ def run_cli(case):
         r.shuffle(names)
         if kind == "masters-mismatch":
             (src / "m2").mkdir()
-            for n, t in comps:
-                (src / "m2" / n).write_text(t)  # second master lacks the extra source
+            comps_ = comps or [GOOD[0]]
+            for n, t in comps_:
+                (src / n).write_text(t)
+                (src / "m2" / n).write_text(t)  # the other master has only the companions: it lacks the extra source
+            full = sorted({n for n, _ in comps_} | {n for n, _ in bad})
+            less = ["m2/" + n for n, _ in comps_]
+            # either the first or the second master is the one with the extra source
+            first_has_more = r.random() < 0.6
             cfg = {
                 "axis": {"wght": {"name": "Weight", "default": 400}},
                 "master": {
-                    "regular": {"style_name": "Regular", "position": {"wght": 400}, "srcs": sorted(names)},
-                    "bold": {"style_name": "Bold", "position": {"wght": 700}, "srcs": ["m2/" + n for n, _ in comps] or ["m2/none.svg"]},
+                    "regular": {"style_name": "Regular", "position": {"wght": 400}, "srcs": full if first_has_more else less},
+                    "bold": {"style_name": "Bold", "position": {"wght": 700}, "srcs": less if first_has_more else full},
                 },
             }
+            names = full
             import toml
 
             (src / "vf.toml").write_text(toml.dumps(cfg))
